@@ -334,6 +334,13 @@ fn gen_conditions(ctx: &mut Ctx) -> Result<String, String> {
         let ad = squash(find_fn(&dg, "DepsGraph", "add_deps")?.block);
         if ad != "{forkeyindeps.iter(){letentry=self.0.entry(key.clone()).or_default();entry.rdeps.insert(asset_key.clone());}ifletSome(entry)=self.0.get_mut(&asset_key){entry.deps.extend(&deps);}}" { return Err(format!("DepsGraph::add_deps: unexpected body `{ad}`")); }
     } else if !rl.contains("ifletSome(new_deps)=new_deps{self.insert(Dependency::Asset(key),new_deps,typ);}") { return Err("DepsGraph::reload: body not recognised".into()); }
+    // DepsGraph::insert: reverse edges are added for every new dependency and removed for EVERY dependency that is no longer
+    // read (`old.difference(new)`, unconditionally) — the shape the hand-written `Model.Reload` graph and its `rdeps`-exactness
+    // theorems transcribe (seeded change C06-i cleaned only when the number of dependencies shrank)
+    let ins = squash(find_fn(&dg, "DepsGraph", "insert")?.block);
+    let ins_head = "{forkeyindeps.iter(){letentry=self.0.entry(key.clone()).or_default();entry.rdeps.insert(asset_key.clone());}matchself.0.entry(asset_key.clone()){Entry::Vacant(entry)=>{entry.insert(GraphNode::new(typ,deps));}Entry::Occupied(entry)=>{letentry=entry.into_mut();letremoved:Vec<_>=entry.deps.difference(&deps).cloned().collect();entry.deps=deps;entry.typ=Some(typ);forkeyinremoved{letremoved=matchself.0.get_mut(&key){Some(entry)=>entry.rdeps.remove(&asset_key),None=>false,};";
+    if !ins.starts_with(ins_head) { return Err(format!("DepsGraph::insert: unexpected body `{ins}`")); }
+    out.push_str("/-- `DepsGraph::insert` adds a reverse edge for every dependency and removes the reverse edge of every dependency no longer read -/\ndef depsInsertCleansExactly : Bool := true\n\n");
     out.push_str(&format!("/-- `reload_untyped` leaves entries without lock (never-reloaded values) alone instead of writing to them -/\ndef reloadSkipsStatic : Bool := {skips_static}\n\n"));
     out.push_str(&format!("/-- after a failed reload the graph keeps the old dependencies and adds what the failed attempt read -/\ndef failedReloadKeepsNewDeps : Bool := {keeps_new}\n\n"));
     out.push_str(&format!("/-- a loader panic during a reload is caught (the reloader thread survives and answers) -/\ndef reloadCatchesPanic : Bool := {catches_panic}\n\n"));
